@@ -171,7 +171,15 @@ pub fn crash(t: &mut Toks) -> String {
             snapshot(kit.dir.path(), &dst);
             n += 1;
             let a = tokio::task::block_in_place(|| analyse(&dst, agent.actor_id(), actor));
-            outs.push(format!("{} {}", a, ack).trim().to_string());
+            // what the live node advertises about the remote actor at this instant
+            let live = {
+                let b = { bookie.read::<&str, _>("verif", None).await.get(&actor).cloned() };
+                match b {
+                    Some(b) => c02::fmt_bv(&*b.read::<&str, _>("verif", None).await),
+                    None => "-".to_string(),
+                }
+            };
+            outs.push(format!("{} live5[{}] {}", a, live, ack).trim().to_string());
         }
         if restart && n > 0 {
             // a real agent on the files of the last crash point
